@@ -103,10 +103,12 @@ def run(chk):
         judge(case, cres[case["id"]], "cli")
     # the complete runs against the system specification: a parse failure ends the run at once
     sys_tr = {}
-    for case in sample[:40 if quick else 400]:
+    for case in sample:
+        if cres[case["id"]]["outcome"] not in ("ok", "error", "reject"):
+            continue
         evs = runtrace.read_events(os.path.join(tdir2, "cli-%s.ndjson" % case["id"]))
         sys_tr[case["id"]] = runtrace.system_trace(evs, cres[case["id"]], case["args"], not case["terminal"])
-    for tid, (ok, diag, states, rc_) in runtrace.validate_many("TraceSystem", sys_tr).items():
+    for tid, (ok, diag, states, rc_) in runtrace.validate_system(sys_tr).items():
         chk.traces += 1
         chk.states += states
         chk.transitions += states
